@@ -110,6 +110,11 @@ def judge(desc: dict[str, Any], fault: str, wf: bool, why: str, col: common.Coll
         return
     # ---- well-formed
     col.count("mon.well_formed_faulted" if fault != "none" else "mon.valid_programs")
+    if not raised and len(pr.partitions) != R:
+        col.violation(f"C10:valid-program-hangs-in-collective:{fault.split('+')[0]}",
+                      f"{fault}: well-formed program, no rank raised, but only ranks "
+                      f"{sorted(pr.partitions)} of {R} returned; stages {pr.stage}", wit)
+        return
     if raised:
         r, e = next(iter(raised.items()))
         col.violation(f"C10:valid-program-rejected:{fault.split('+')[0]}:{type(e).__name__}@"
